@@ -218,6 +218,30 @@ Section MSig.
                 let '(m'', es) := bdn_run m' r in (m'', e :: es)
     end.
 
+  (* several mask objects over the same key list, used side by side: new ones
+     come from NewMask or from cloning an existing one (they then share the
+     precomputed coefficients and terms, which no operation writes) *)
+  Inductive pstep :=
+  | PNew (own : option F)
+  | POp (k : nat) (o : bop)
+  | PClone (k : nat).
+
+  Definition pool_step (pubs : list F) (pool : list bmask) (s : pstep) : list bmask :=
+    match s with
+    | PNew own => match bdn_new_mask pubs own with Some m => pool ++ [m] | None => pool end
+    | POp k o => match nth_error pool k with
+                 | Some m => set_nth k (fst (bdn_step m o)) pool
+                 | None => pool
+                 end
+    | PClone k => match nth_error pool k with
+                  | Some m => pool ++ [fst (bdn_step m BClone)]
+                  | None => pool
+                  end
+    end.
+
+  Definition pool_run (pubs : list F) (steps : list pstep) : list bmask :=
+    fold_left (pool_step pubs) steps [].
+
   Definition bdn_count_enabled (m : bmask) : nat := count_bits (length (bm_pubs m)) (bm_bits m).
 
   (* AggregateSignatures: for i over the publics, enabled bits consume the next signature *)
